@@ -1287,10 +1287,21 @@ class H2Stream:
         # Slice into blocks of max_outbound_frame_size. Be careful with this:
         # it only works right because we never send padded frames or priority
         # information on the frames. Revisit this if we do.
-        header_blocks = [
+        # The first frame carries more than its header block fragment: a
+        # PUSH_PROMISE frame the promised stream ID (4 octets), a HEADERS
+        # frame possibly priority information (5 octets). Leave room for them
+        # so that no frame payload exceeds the peer's maximum frame size.
+        if isinstance(first_frame, PushPromiseFrame):
+            first_block_size = self.max_outbound_frame_size - 4
+        else:
+            first_block_size = self.max_outbound_frame_size - 5
+
+        header_blocks = [encoded_headers[:first_block_size]] + [
             encoded_headers[i:i+self.max_outbound_frame_size]
             for i in range(
-                0, len(encoded_headers), self.max_outbound_frame_size
+                first_block_size,
+                len(encoded_headers),
+                self.max_outbound_frame_size
             )
         ]
 
